@@ -98,6 +98,15 @@ def run(chk):
                     sig['fieldname'] = 'n_failures'
             if e.get('failed'):
                 sig['failed'] = ','.join(sorted(set(e['failed'])))
+                if all(x.endswith(':rex') for x in e['failed']) and info.get('rexes'):
+                    # the frame fails only its own rex constraints: C03's business unless no named deviation explains it
+                    from harness import rex_runs as rr
+                    from checks import c03
+                    causes = set()
+                    for f, strs in info.get('strings', {}).items():
+                        for x in strs:
+                            causes |= rr.char_causes(x, 'portable', info['rexes'].get(f, []))
+                    sig = {'kind': 'closure-session', 'clause': 'RexClosure', 'cause': c03.primary(causes)}
             elif len(set(info['kinds'].values())) == 1:
                 sig['colkind'] = list(info['kinds'].values())[0]
             chk.violation(sig, {'event': e, 'column_kinds': info['kinds'], 'nrows': info['nrows'], 'path': info['path'],
